@@ -292,7 +292,7 @@ static void gen_nameserver_value(vh_rng_t *r, cfg_bb_t *l, unsigned *dirs, int a
       break;
     default:
       gen_ipv6_ll(r, ip);
-      cfg_bb_printf(l, "dns://[%s%%25%s]", ip, gen_iface(r));
+      cfg_bb_printf(l, "dns://[%s%%%s]", ip, gen_iface(r));
       *dirs |= D_NSLL | D_NSURI;
       break;
   }
